@@ -1,0 +1,102 @@
+//go:build verif
+
+package proxy
+
+import (
+	"context"
+	"sort"
+	"time"
+
+	"github.com/fabiolb/fabio/config"
+	"github.com/fabiolb/fabio/route"
+
+	"google.golang.org/grpc"
+	"google.golang.org/grpc/metadata"
+)
+
+// Verification hooks for property C16 (build tag verif): thin exported wrappers around the unexported
+// gRPC connection pool and the interceptor's lookup so that the correspondence harness in /verif can call
+// the real code in-process. No behaviour is changed.
+
+// VerifC16Pool is a handle on a real grpcConnectionPool whose cleanup loop is not running on its own: the
+// harness decides when one iteration of the loop body runs (CleanupOnce).
+type VerifC16Pool struct {
+	p *grpcConnectionPool
+}
+
+// VerifC16NewPool builds the pool with the same fields as newGrpcConnectionPool but does not start the
+// background cleanup goroutine; the interval is so long that a cleanup goroutine started by CleanupOnce
+// never gets to a second iteration.
+func VerifC16NewPool(cfg *config.Config) *VerifC16Pool {
+	return &VerifC16Pool{p: &grpcConnectionPool{
+		connections:     make(map[string]*grpc.ClientConn),
+		cleanupInterval: time.Duration(1 << 62),
+		cfg:             cfg,
+	}}
+}
+
+// Get is grpcConnectionPool.Get.
+func (v *VerifC16Pool) Get(ctx context.Context, t *route.Target) (*grpc.ClientConn, error) {
+	return v.p.Get(ctx, t)
+}
+
+// Set is grpcConnectionPool.Set.
+func (v *VerifC16Pool) Set(t *route.Target, c *grpc.ClientConn) { v.p.Set(t, c) }
+
+// Keys returns the pool's keys, sorted.
+func (v *VerifC16Pool) Keys() []string {
+	v.p.lock.RLock()
+	defer v.p.lock.RUnlock()
+	ks := make([]string, 0, len(v.p.connections))
+	for k := range v.p.connections {
+		ks = append(ks, k)
+	}
+	sort.Strings(ks)
+	return ks
+}
+
+// Conn returns the pooled connection of a key (nil when absent).
+func (v *VerifC16Pool) Conn(key string) *grpc.ClientConn {
+	v.p.lock.RLock()
+	defer v.p.lock.RUnlock()
+	return v.p.connections[key]
+}
+
+// CleanupOnce runs exactly one iteration of the body of grpcConnectionPool.cleanup (the real method) and
+// returns when that iteration has released the write lock. The method is an endless loop, so it is started
+// on a goroutine which, after its first iteration, sleeps for the (practically infinite) interval.
+// Sequencing uses only the pool's own RWMutex: while this function holds a read lock the cleanup
+// goroutine blocks in Lock(); a failing TryRLock shows that it has got that far; after the read lock is
+// dropped, this function's own Lock() queues behind the pending writer.
+func (v *VerifC16Pool) CleanupOnce() {
+	p := v.p
+	p.lock.RLock()
+	go p.cleanup()
+	for {
+		if p.lock.TryRLock() {
+			p.lock.RUnlock()
+			time.Sleep(5 * time.Microsecond)
+			continue
+		}
+		break
+	}
+	p.lock.RUnlock()
+	p.lock.Lock()
+	p.lock.Unlock() //nolint:staticcheck // barrier only
+}
+
+// VerifC16DstHost exposes getDestinationHostFromMetadata.
+func VerifC16DstHost(md metadata.MD) string {
+	return GrpcProxyInterceptor{}.getDestinationHostFromMetadata(md)
+}
+
+// VerifC16Lookup exposes GrpcProxyInterceptor.lookup.
+func VerifC16Lookup(g GrpcProxyInterceptor, ctx context.Context, fullMethod string) (*route.Target, error) {
+	return g.lookup(ctx, fullMethod)
+}
+
+// VerifC16TargetKey exposes makeGRPCTargetKey.
+func VerifC16TargetKey(t *route.Target) string { return makeGRPCTargetKey(t) }
+
+// VerifC16HasTarget exposes hasTarget.
+func VerifC16HasTarget(key string, t route.Table) bool { return hasTarget(key, t) }
